@@ -31,6 +31,9 @@ func fastRTPUnmarshal(payload []byte, header *rtp.Header, headerSize int) (*rtp.
 			return nil, fmt.Errorf("buffer is too small")
 		}
 		p.Header.PaddingSize = buf[end-1]
+		if p.Header.PaddingSize == 0 {
+			return nil, fmt.Errorf("invalid RTP padding")
+		}
 		end -= int(p.Header.PaddingSize)
 	} else {
 		p.Header.PaddingSize = 0
